@@ -211,3 +211,170 @@ def tt1_target(sim):
     t.sens_res = bytearray(b"\x00\x0C")
     t.rid_res = bytearray(sim.hr + sim.mem[0:4])
     return t
+
+
+# ----------------------------------------------------------------------------
+# Type 3 Tag
+# ----------------------------------------------------------------------------
+class Tt3Sim(SimBase):
+    """FeliCa style tag with one NDEF system (12FCh): 16-byte blocks, service
+    000Bh (read) and 0009h (read/write) without encryption.  Written from the
+    FeliCa command formats: Polling, Read/Write Without Encryption with its
+    own service/block list parsing; per-command block limits; status flags
+    FFh/A1h-A8h for illegal lists.  mem is a flat list, block b at b*16."""
+
+    def __init__(self, mem, idm, pmm, max_read=15, max_write=13, sys=0x12FC):
+        SimBase.__init__(self)
+        self.mem = mem
+        self.idm = list(idm)
+        self.pmm = list(pmm)
+        self.max_read = max_read
+        self.max_write = max_write
+        self.sys = sys
+
+    def is_write(self, cmd):
+        return len(cmd) > 1 and cmd[1] == 0x08
+
+    def nblocks(self):
+        return len(self.mem) // 16
+
+    def _rsp(self, code, body):
+        return bytearray([2 + 8 + len(body), code] + self.idm + list(body))
+
+    def _lists(self, d):
+        """parse service list and block list -> (services, blocks, rest)"""
+        pos = 0
+        nsvc = d[pos]
+        pos += 1
+        if not 1 <= nsvc <= 16:
+            return None, 0xA1, None
+        svcs = []
+        for i in range(nsvc):
+            svcs.append(d[pos] | (d[pos + 1] << 8))
+            pos += 2
+        nblk = d[pos]
+        pos += 1
+        if nblk == 0:
+            return None, 0xA2, None
+        blocks = []
+        for i in range(nblk):
+            b0 = d[pos]
+            if b0 & 0x80:
+                num = d[pos + 1]
+                pos += 2
+            else:
+                num = d[pos + 1] | (d[pos + 2] << 8)
+                pos += 3
+            order = b0 & 0x0F
+            if order >= nsvc:
+                return None, 0xA3, None
+            if (b0 >> 4) & 7:
+                return None, 0xA7, None      # access mode must be 0
+            blocks.append((svcs[order], num))
+        return blocks, 0, d[pos:]
+
+    def execute(self, cmd):
+        if len(cmd) < 2 or cmd[0] != len(cmd):
+            raise nfc.clf.TimeoutError("length")
+        code = cmd[1]
+        if code == 0x00 and len(cmd) == 6:
+            sysc = (cmd[2] << 8) | cmd[3]
+            if sysc != self.sys and sysc != 0xFFFF and \
+                    not (cmd[2] == 0xFF and cmd[3] == (self.sys & 0xFF)) and \
+                    not (cmd[3] == 0xFF and cmd[2] == (self.sys >> 8)):
+                raise nfc.clf.TimeoutError("other system")
+            self.log.append(("poll", sysc))
+            body = self.idm + self.pmm
+            if cmd[4] == 1:
+                body = body + [self.sys >> 8, self.sys & 0xFF]
+            elif cmd[4] == 2:
+                body = body + [0x00, 0x83]
+            return bytearray([2 + len(body), 0x01] + body)
+        if len(cmd) < 10 or list(cmd[2:10]) != self.idm:
+            raise nfc.clf.TimeoutError("other idm")
+        d = cmd[10:]
+        if code == 0x06:
+            blocks, err, rest = self._lists(d)
+            if blocks is None:
+                return self._rsp(0x07, [0xFF, err])
+            if len(blocks) > self.max_read:
+                return self._rsp(0x07, [0xFF, 0xA2])
+            out = []
+            for i, (svc, num) in enumerate(blocks):
+                if svc not in (0x000B, 0x0009):
+                    return self._rsp(0x07, [1 << (i % 8), 0xA6])
+                if num >= self.nblocks():
+                    return self._rsp(0x07, [1 << (i % 8), 0xA8])
+                out += self.mem[num * 16:num * 16 + 16]
+                self.log.append(("read", num))
+            return self._rsp(0x07, [0, 0, len(blocks)] + out)
+        if code == 0x08:
+            blocks, err, rest = self._lists(d)
+            if blocks is None:
+                return self._rsp(0x09, [0xFF, err])
+            if len(blocks) > self.max_write or len(rest) != 16 * len(blocks):
+                return self._rsp(0x09, [0xFF, 0xA2])
+            for i, (svc, num) in enumerate(blocks):
+                if svc != 0x0009:
+                    return self._rsp(0x09, [1 << (i % 8), 0xA6])
+                if num >= self.nblocks():
+                    return self._rsp(0x09, [1 << (i % 8), 0xA8])
+            for i, (svc, num) in enumerate(blocks):
+                new = [rest[i * 16 + j] for j in range(16)]
+                self.writes.append((num * 16, self.mem[num * 16:num * 16 + 16], new))
+                self.mem[num * 16:num * 16 + 16] = new
+                self.log.append(("write", num))
+            return self._rsp(0x09, [0, 0])
+        raise nfc.clf.TimeoutError("unsupported command")
+
+
+def tt3_target(sim, with_sys=True):
+    t = nfc.clf.RemoteTarget("212F")
+    body = [0x01] + sim.idm + sim.pmm
+    if with_sys:
+        body += [sim.sys >> 8, sim.sys & 0xFF]
+    t.sensf_res = bytearray(body)
+    return t
+
+
+class Tt3EmuSim(SimBase):
+    """the library's own Type3TagEmulation as the tag: the reader's exchange
+    hands each command to process_command(); block services are byte-array
+    closures as in examples/tagtool.py"""
+
+    def __init__(self, mem, idm, pmm, sys=0x12FC):
+        import nfc.tag.tt3
+        SimBase.__init__(self)
+        self.mem = mem
+        self.idm, self.pmm, self.sys = list(idm), list(pmm), sys
+        target = nfc.clf.LocalTarget("212F")
+        target.sensf_res = bytearray([0x01] + self.idm + self.pmm +
+                                     [sys >> 8, sys & 0xFF])
+        target.tt3_cmd = bytearray([0x00, 0x12, 0xFC, 0x00, 0x00])
+        self.emu = nfc.tag.tt3.Type3TagEmulation(None, target)
+
+        def ndef_read(block_number, rb, re):
+            if block_number < len(self.mem) // 16:
+                self.log.append(("read", block_number))
+                return bytearray(self.mem[block_number * 16:block_number * 16 + 16])
+
+        def ndef_write(block_number, block_data, wb, we):
+            if block_number < len(self.mem) // 16:
+                new = [block_data[j] for j in range(16)]
+                a = block_number * 16
+                self.writes.append((a, self.mem[a:a + 16], new))
+                self.mem[a:a + 16] = new
+                self.log.append(("write", block_number))
+                return True
+
+        self.emu.add_service(0x0009, ndef_read, ndef_write)
+        self.emu.add_service(0x000B, ndef_read, lambda: False)
+
+    def is_write(self, cmd):
+        return len(cmd) > 1 and cmd[1] == 0x08
+
+    def execute(self, cmd):
+        rsp = self.emu.process_command(bytearray(cmd))
+        if rsp is None:
+            raise nfc.clf.TimeoutError("no response")
+        return bytearray(rsp)
